@@ -142,6 +142,49 @@ class World:
         self.objs.append(o)
         return o
 
+    # ---- ops shared by the interpreters: oneshot() blocks and wait()
+
+    def apply_extra(self, op):
+        """("oneshot", obj, enter?) opens / closes a oneshot() block on an
+        object (blocks stay open across later ops); ("wait", obj, timeout)
+        calls Process.wait().  Returns True when the op was one of these."""
+        import psutil
+
+        kind = op[0]
+        if kind == "oneshot":
+            # indices 8..11 address every object at once
+            targets = list(self.objs) if op[1] >= 8 else [self.pick_obj(op[1])]
+            for o in targets:
+                if o is None:
+                    continue
+                cm = getattr(o, "cm", None)
+                if op[2] and cm is None:
+                    o.cm = o.proc.oneshot()
+                    o.cm.__enter__()
+                    self.events.append(("oneshot-enter", o.pid))
+                elif not op[2] and cm is not None:
+                    o.cm = None
+                    cm.__exit__(None, None, None)
+            return True
+        if kind == "wait":
+            o = self.pick_obj(op[1])
+            if o is None or getattr(o, "popen", False):
+                return True
+            try:
+                o.proc.wait(op[2])
+                self.events.append(("wait-returned", o.pid))
+            except psutil.Error:
+                pass
+            return True
+        return False
+
+    def close_blocks(self):
+        for o in self.objs:
+            cm = getattr(o, "cm", None)
+            if cm is not None:
+                o.cm = None
+                cm.__exit__(None, None, None)
+
     def pick_obj(self, i):
         if not self.objs:
             return None
@@ -165,6 +208,15 @@ def table_ops():
         st.tuples(st.just("mkproc"), i, st.sampled_from([False, False, False, True, "popen-class",
                                                          "popen-class"])),
         st.tuples(st.just("mkproc"), i, st.just(False)),
+    ]
+
+
+def extra_ops():
+    i = st.integers(0, 11)
+    return [
+        st.tuples(st.just("oneshot"), i, st.sampled_from([True, True, False])),
+        st.tuples(st.just("wait"), i, st.sampled_from([0, 0, 0.01])),
+        st.tuples(st.just("wait"), i, st.sampled_from([0, 0, 0.01])),
     ]
 
 
